@@ -127,6 +127,17 @@ def lowered(repo, cls, listname, kind, letter, only_func=None):
     -> (True, where) | (False, reason)"""
     cons = consumers(repo, cls, listname, only_func)
     if not cons:
+        # "never iterated" is a conclusion only if the container is not read into a working list the rule does not
+        # follow (ws = list(self.X); ws.append(..) / ws = self.X.copy() / ws.extend(self.X) / ws += self.X ...)
+        for c in repo.mro(cls):
+            dm = c.methods.get('do_math')
+            if dm is None or (only_func is not None and dm is not only_func):
+                continue
+            for n in walk_no_nested(dm.node):
+                reads = isinstance(n, ast.Attribute) and ntext(n) == listname and isinstance(n.ctx, ast.Load)
+                if reads:
+                    raise AnalysisError('%s reads %s, but not in the header of a loop the rule follows (a working list '
+                                        'built in several statements?)' % (dm.fq, listname))
         return False, 'no do_math loop iterates over %s' % listname
     reasons = []
     for dm, node, k in cons:
@@ -340,8 +351,11 @@ def _front_end(repo, res, mod):
         if leaf0 is None:
             raise AnalysisError('dro.Model.st: no statements reached for an ExpPWConstr')
         txt0 = ' '.join(ntext(s_) for s_ in leaf0.stmts[:3])
+        first0 = ntext(leaf0.stmts[0]) if leaf0.stmts else ''
         whole = ('self.all_constr.append(%s)' % st_loop.target.id) in txt0
-        pieces = '.pieces' in txt0
+        # evidence of a split: the first statement reached for an ExpPWConstr extends the list by its pieces
+        pieces = first0.replace(' ', '') in ('self.all_constr.extend(%s.pieces)' % st_loop.target.id,
+                                             'self.all_constr+=%s.pieces' % st_loop.target.id)
         if not whole and not pieces and not leaf0.raises():
             raise AnalysisError('dro.Model.st: what is stored for an ExpPWConstr (`%s`) is not interpreted' % txt0[:60])
         res.inst({'front_end': 'dro', 'ExpPWConstr stored whole': whole}, whole)
